@@ -10,7 +10,7 @@ use serde_json::{json, Value};
 use std::collections::BTreeMap;
 use std::time::Duration;
 
-pub const FILES: [&str; 4] = ["main.asm", "lib.asm", "other.asm", "ghost.asm"];
+pub const FILES: [&str; 5] = ["main.asm", "lib.asm", "other.asm", "ghost.asm", "untitled:Untitled-1"];
 
 pub const REQUESTS: [&str; 13] = [
     "textDocument/definition",
@@ -51,6 +51,7 @@ pub enum Op {
     /// whole-text replacement by another generated program
     Replace { file: usize, seed: u32 },
     Close { file: usize },
+    ChangeNothing { file: usize },
     Request { kind: usize, file: usize, pos: PosKind, sel: u32 },
 }
 
@@ -76,6 +77,15 @@ pub fn disk_files(c: &Case) -> BTreeMap<String, String> {
     // a file that is not part of the project
     m.insert("other.asm".to_string(), "stray: nop\n    jmp stray\n".to_string());
     m
+}
+
+/// the URI of a document of the scratch project; names with a scheme are URIs already (an editor's unsaved document)
+fn uri_for(dir: &std::path::Path, file: &str) -> String {
+    if file.contains(':') {
+        file.to_string()
+    } else {
+        file_uri(dir, file)
+    }
 }
 
 fn utf16_col(line: &str, byte: usize) -> usize {
@@ -275,7 +285,7 @@ pub struct Session {
 fn start(files: &BTreeMap<String, String>) -> Result<Session, LspErr> {
     let scratch = Scratch::new("c14");
     scratch.write("mos.toml", b"[build]\nentry = \"main.asm\"\n");
-    for (n, t) in files {
+    for (n, t) in files.iter().filter(|(n, _)| !n.contains(':')) {
         scratch.write(n, t.as_bytes());
     }
     let client = LspClient::start(&scratch.dir)?;
@@ -287,7 +297,7 @@ fn battery(s: &mut Session, buffers: &BTreeMap<String, String>, disk: &BTreeMap<
     let t = Duration::from_secs(20);
     let mut out = BTreeMap::new();
     for f in ["main.asm", "lib.asm"] {
-        let uri = file_uri(&s.scratch.dir, f);
+        let uri = uri_for(&s.scratch.dir, f);
         let text = buffers.get(f).or(disk.get(f)).cloned().unwrap_or_default();
         for kind in ["textDocument/documentSymbol", "textDocument/semanticTokens/full", "textDocument/codeLens"] {
             let r = s.client.request(kind, params_for(kind, &uri, (0, 0)), t)?;
@@ -325,6 +335,8 @@ pub enum Step {
     Open { file: String, text: String },
     Change { file: String, text: String, note: String },
     Close { file: String },
+    /// a change notification without any change
+    ChangeNothing { file: String },
     Request { method: String, file: String, line: u64, character: u64, pos_kind: String },
 }
 
@@ -418,6 +430,12 @@ pub fn compile(c: &Case) -> Raw {
                     steps.push(Step::Close { file: f.to_string() });
                 }
             }
+            Op::ChangeNothing { file } => {
+                let f = FILES[*file % FILES.len()];
+                if buffers.contains_key(f) {
+                    steps.push(Step::ChangeNothing { file: f.to_string() });
+                }
+            }
             Op::Request { kind, file, pos, sel } => {
                 let kind = REQUESTS[*kind % REQUESTS.len()];
                 let f = FILES[*file % FILES.len()];
@@ -467,13 +485,13 @@ pub fn run_raw(raw: &Raw, log: &mut CaseLog) -> Verdict {
     for step in &raw.steps {
         match step {
             Step::Open { file, text } => {
-                s.client.did_open(&file_uri(&s.scratch.dir, file), text);
+                s.client.did_open(&uri_for(&s.scratch.dir, file), text);
                 buffers.insert(file.clone(), text.clone());
                 trace.push(format!("didOpen {}", file));
             }
             Step::Change { file, text, note } => {
                 version += 1;
-                s.client.did_change(&file_uri(&s.scratch.dir, file), text, version);
+                s.client.did_change(&uri_for(&s.scratch.dir, file), text, version);
                 buffers.insert(file.clone(), text.clone());
                 trace.push(format!("didChange {} ({})", file, note));
                 edits += 1;
@@ -483,14 +501,19 @@ pub fn run_raw(raw: &Raw, log: &mut CaseLog) -> Verdict {
                     close_after_change = true;
                 }
                 buffers.remove(file);
-                s.client.did_close(&file_uri(&s.scratch.dir, file));
+                s.client.did_close(&uri_for(&s.scratch.dir, file));
                 trace.push(format!("didClose {}", file));
+            }
+            Step::ChangeNothing { file } => {
+                version += 1;
+                s.client.notify("textDocument/didChange", json!({"textDocument": {"uri": uri_for(&s.scratch.dir, file), "version": version}, "contentChanges": []}));
+                trace.push(format!("didChange {} (no changes)", file));
             }
             Step::Request { method, file, line, character, pos_kind } => {
                 let kind = method.as_str();
                 let f = file.as_str();
                 let text = buffers.get(f).cloned().unwrap_or_else(|| on_disk(f));
-                let uri = file_uri(&s.scratch.dir, f);
+                let uri = uri_for(&s.scratch.dir, f);
                 trace.push(format!("{} {} {} {}:{}", kind, f, pos_kind, line, character));
                 log.label(format!("request:{}", kind));
                 log.label(format!("position:{}", pos_kind));
@@ -575,7 +598,7 @@ pub fn run_raw(raw: &Raw, log: &mut CaseLog) -> Verdict {
         let mut names: Vec<&String> = buffers.keys().collect();
         names.sort_by_key(|n| if n.as_str() == "main.asm" { 0 } else { 1 });
         for n in names {
-            fs.client.did_open(&file_uri(&fs.scratch.dir, n), &buffers[n]);
+            fs.client.did_open(&uri_for(&fs.scratch.dir, n), &buffers[n]);
         }
         match battery(&mut fs, &buffers, disk) {
             Ok(a) => fresh.push((a, diagnostics_of(&fs))),
@@ -634,11 +657,15 @@ fn op_strategy() -> impl Strategy<Value = Op> {
         2 => (0usize..2, any::<u32>(), any::<u32>()).prop_map(|(file, line, variant)| Op::LineEdit { file, line, variant }),
         1 => (0usize..2).prop_map(|file| Op::Restore { file }),
         1 => (0usize..2, any::<u32>()).prop_map(|(file, seed)| Op::Replace { file, seed }),
+        1 => Just(Op::Open { file: 4 }),
+        1 => (any::<u32>(), any::<u32>()).prop_map(|(line, variant)| Op::LineEdit { file: 4, line, variant }),
+        1 => Just(Op::Close { file: 4 }),
+        1 => (0usize..5).prop_map(|file| Op::ChangeNothing { file }),
         1 => Just(Op::Open { file: 3 }),
         1 => (any::<u32>(), any::<u32>()).prop_map(|(line, variant)| Op::LineEdit { file: 3, line, variant }),
         1 => Just(Op::Close { file: 3 }),
         1 => (0usize..2).prop_map(|file| Op::Close { file }),
-        8 => (0usize..REQUESTS.len(), 0usize..4, pk, any::<u32>()).prop_map(|(kind, file, pos, sel)| Op::Request { kind, file, pos, sel }),
+        8 => (0usize..REQUESTS.len(), 0usize..5, pk, any::<u32>()).prop_map(|(kind, file, pos, sel)| Op::Request { kind, file, pos, sel }),
     ]
 }
 
@@ -657,7 +684,7 @@ pub fn run_check(ctx: &mut Ctx) {
     if std::env::var("MV_MAX_SHRINK").is_err() {
         std::env::set_var("MV_MAX_SHRINK", "120");
     }
-    ctx.rule = "a scratch project (generated main.asm importing lib.asm, a documented label, a test, a file outside the project) and one `mos lsp` process; histories of 1-80 operations: didOpen / didChange by typed single characters (insert, delete: passes through broken states), line replacements, whole-text replacements, restore / didClose of main file, imported file and a new file that is not on disk, interleaved with all 13 supported request kinds at positions of 7 kinds (inside identifier, token boundary, start/end of line, beyond end of line, beyond end of file, inside a multi-byte character) in open, closed and non-project documents. oracle: every request is answered and the process lives; every returned range lies inside the addressed document's current text and semantic tokens decode to sorted non-overlapping non-empty in-line ranges; after the history the last published diagnostics per file and the answers to a fixed battery equal those of two freshly started servers that only receive didOpen of the final buffers (answers on which the two fresh servers disagree are reported as nondeterministic and left out). non-trivial = >= 2 edits with a broken intermediate state, a close after an unsaved change, or an out-of-range position".into();
+    ctx.rule = "a scratch project (generated main.asm importing lib.asm, a documented label, a test, a file outside the project) and one `mos lsp` process; histories of 1-80 operations: didOpen / didChange by typed single characters (insert, delete: passes through broken states), line replacements, whole-text replacements, restore / didClose of main file, imported file, a new file that is not on disk and a document that is not a file at all (`untitled:` URI), change notifications without changes, interleaved with all 13 supported request kinds at positions of 7 kinds (inside identifier, token boundary, start/end of line, beyond end of line, beyond end of file, inside a multi-byte character) in open, closed and non-project documents. oracle: every request is answered and the process lives; every returned range lies inside the addressed document's current text and semantic tokens decode to sorted non-overlapping non-empty in-line ranges; after the history the last published diagnostics per file and the answers to a fixed battery equal those of two freshly started servers that only receive didOpen of the final buffers (answers on which the two fresh servers disagree are reported as nondeterministic and left out). non-trivial = >= 2 edits with a broken intermediate state, a close after an unsaved change, or an out-of-range position".into();
     if !have_mos() {
         ctx.health(false, "mos binary not built (MOS_BIN)");
         return;
